@@ -127,7 +127,9 @@ func GenOp(r *simrt.Rand, idx int, seed uint64, proto string) *Op {
 	if r.Chance(0.1) {
 		op.CtxTimeout = time.Duration(50+r.Intn(950)) * time.Millisecond
 	}
-	if r.Chance(0.12) {
+	if r.Chance(0.08) {
+		op.MetaK, op.MetaV = "", "" // a message without any metadata
+	} else if r.Chance(0.12) {
 		op.MetaV = "" // a key with an empty value travels as a bare key in the query-string encoding of metadata
 	}
 	// route + codec
@@ -210,6 +212,9 @@ func TagOf(arg string) string {
 }
 
 // MetaHas reports whether the rendered metadata contains k=v.
+// MetaKeys lists the metadata keys GenOp chooses from.
+func MetaKeys() []string { return metaKeys }
+
 func MetaHas(meta, k, v string) bool {
 	for _, kv := range strings.Split(meta, "&") {
 		if kv == k+"="+v {
